@@ -207,6 +207,33 @@ impl<'t> Glob<'t> {
 /// For unrooted globs, the pivot can be used to isolate the target path given to walk functions
 /// like `Glob::walk`. This is necessary to implement `Entry` and for interpreting depth behavior,
 /// which is always relative to the target path (and ignores any invariant prefix in a glob).
+#[cfg(feature = "olson_sean_k_wax_verif")]
+impl<'t> Glob<'t> {
+    /// Verification hook: texts of the per-component programs that a walk of this glob uses to
+    /// prune directories (compiled by the same function as in `Glob::walk_with_behavior`).
+    #[doc(hidden)]
+    pub fn verif_walk_component_texts(&self) -> Vec<String> {
+        if self.is_empty() {
+            vec![]
+        }
+        else {
+            WalkProgram::compile::<Tokenized<_>>(self.tree.as_ref())
+                .expect("failed to compile walk program")
+                .iter()
+                .map(|program| program.as_str().to_string())
+                .collect()
+        }
+    }
+
+    /// Verification hook: traversal root and pivot that a walk of this glob in the given
+    /// directory uses.
+    #[doc(hidden)]
+    pub fn verif_walk_anchor(&self, path: impl Into<PathBuf>) -> (PathBuf, usize) {
+        let Anchor { root, pivot } = self.anchor(path);
+        (root, pivot)
+    }
+}
+
 #[derive(Clone, Debug)]
 struct Anchor {
     /// The root path of the walk.
@@ -526,6 +553,25 @@ impl FilterAny {
 ///
 /// [`Glob`]: crate::Glob
 /// [`Glob::walk`]: crate::Glob::walk
+#[cfg(feature = "olson_sean_k_wax_verif")]
+impl FilterAny {
+    /// Verification hook: texts of the exhaustive and nonexhaustive partition programs.
+    pub(crate) fn verif_partition_texts(&self) -> (Option<String>, Option<String>) {
+        use FilterAnyProgram::{Empty, Exhaustive, Nonexhaustive, Partitioned};
+
+        let text = |program: &Regex| program.as_str().to_string();
+        match self.program {
+            Empty => (None, None),
+            Exhaustive(ref exhaustive) => (Some(text(exhaustive)), None),
+            Nonexhaustive(ref nonexhaustive) => (None, Some(text(nonexhaustive))),
+            Partitioned {
+                ref exhaustive,
+                ref nonexhaustive,
+            } => (Some(text(exhaustive)), Some(text(nonexhaustive))),
+        }
+    }
+}
+
 #[derive(Debug)]
 pub struct GlobEntry {
     entry: TreeEntry,
